@@ -200,6 +200,10 @@ func roundTrip(c rtCase) {
 		}
 	}
 
+	if n == 13 || n == 65535 {
+		sampleKind("roundtrip", 2, map[string]any{"roundtrip": c, "content_head": hexHead(msg, 16), "written_head": hexHead(rec.buf, 8), "write_calls": rec.calls, "writer_ok": wok, "second_frame_len": n2})
+	}
+
 	// --- real DNS messages ---
 	sp, ok := specForSize(n, seed)
 	if !ok {
@@ -406,6 +410,7 @@ func refusalVerdict(c refuseCase, err error, wrote int, data []byte) {
 	if err != nil && wrote == 0 {
 		rep.Count("oversize_refused", 1)
 		rep.Nontrivial(fmt.Sprintf("refuse|%s|%d", c.Fn, c.N))
+		sampleKind("refuse", 1, map[string]any{"refusal": c, "error": trimErr(err), "bytes_written": wrote})
 		return
 	}
 	what := fmt.Sprintf("%s with a %d byte message (> 65535): err=%v, %d bytes produced", c.Fn, c.N, err, wrote)
@@ -604,6 +609,9 @@ func garbageVariants(fnIdx int, origin string, stream []byte, rng *rand.Rand, al
 		}
 		caselog.Log(c)
 		runGarbage(c, stream)
+		if len(stream) > 40 && len(stream) < 200 {
+			sampleKind("malformed", 1, c)
+		}
 		rep.Nontrivial(fmt.Sprintf("g|%s|%s|%s|%v|%x", fn, class, end, last, mix(hashBytes(stream))))
 	}
 	if all {
